@@ -316,6 +316,34 @@ that is not parked stays not parked through every nested / failing / refunded ca
 theorem not_parked_stays (p : Px) (c : Calls) (n : Nat) (hn : n ∉ p.pending) : n ∉ (execCallsWith true p c).pending :=
   fun h => hn (execCalls_pending_subset c p n h)
 
+/-- a deferred execution that does not fail CONSUMES the parked claim — whatever the called-back contracts did in between
+(re-entered the same nonce, executed and rolled back other claims, reverted): afterwards the nonce is not parked any more
+and its effects are in the log, so by `pending_executes_once` they can never run again -/
+theorem exec_ok_consumes (s : State) (n : Nat) (o : Outcome) (inner : Calls) (hok : (step s (.exec n o inner)).2 = .ok) :
+    n ∉ (step s (.exec n o inner)).1.pending ∧ n ∈ (step s (.exec n o inner)).1.executedLog := by
+  have hp := exec_needs_pending s n o inner hok
+  have hc : execChecksPending = true := by decide
+  have hdf : execDeletesBeforeHandler = true := by decide
+  have hd : execDeletesPending = true := by decide
+  simp only [step] at hok ⊢
+  unfold execStep at hok ⊢
+  have hcont : s.pending.contains n = true := by simpa using hp
+  simp only [hc, hcont, Bool.true_and, Bool.not_true] at hok ⊢
+  cases o with
+  | fail => simp at hok
+  | refund =>
+    simp only [execCalls, execCallsWith, hc, hcont, Bool.true_and, Bool.not_true]
+    exact ⟨not_mem_delPending hd _ _, by simp⟩
+  | ok =>
+    simp only [execCalls, hdf]
+    rw [execCallsWith]
+    simp only [hc, hcont, Bool.true_and, Bool.not_true, execCallsWith]
+    constructor
+    · exact not_parked_stays _ inner n (not_mem_delPending hd _ _)
+    · obtain ⟨l, hl⟩ := execCalls_log_extends true inner { pending := delPending s.pending n, log := s.executedLog ++ [n] }
+      simp at hl ⊢
+      rw [hl]; simp
+
 /-- Hence, while the handler of nonce `n` is running, EVERY `executeClaim(n)` issued from inside it — directly by the
 called-back contract or at any depth below, before or after other nested executions, refunds or failures — finds
 nothing and has no effect: after any forest `c1` the re-entrant call is skipped. -/
